@@ -46,8 +46,7 @@ theorem step_sub (P Q : List ((σ × κ) × Acct σ) → Prop) (hPQ : ∀ m, P m
     (hEA : ∀ s a e amt, P s.sub → Q (execActive c s a e amt).1.sub)
     (hET : ∀ s f t e amt, P s.sub → Q (execTransfer c s f t e amt).1.sub)
     (hETF : ∀ s f t e amt, P s.sub → Q (execTransferFrozen c s f t e amt).1.sub)
-    (hDF : ∀ (s : State σ κ) a e amt, checkAmount amt = true → P s.sub →
-      Q (saveSub c s e { loadSub c s a e with frz := wrap ((loadSub c s a e).frz + amt) }).sub)
+    (hDF : ∀ (s : State σ κ) a e amt, P s.sub → Q (depositFrozen2 c s a e amt).1.sub)
     (s : State σ κ) (op : Op σ) (hs : P s.sub) : Q (step c s op).1.sub := by
   cases op with
   | transfer f t amt => simp only [step]; rw [sub_transfer]; exact hPQ _ hs
@@ -89,17 +88,12 @@ theorem step_sub (P Q : List ((σ × κ) × Acct σ) → Prop) (hPQ : ∀ m, P m
     simp only [step, execDepositFrozen]
     split
     · exact hPQ _ hs
-    · have h1 : P (execIssue c s e amt).1.sub := by rw [sub_execIssue]; exact hs
-      split
-      · exact hPQ _ h1
-      · next hne hok =>
-        have hca : checkAmount amt = true := by
-          rcases execIssue_cases c s e amt with hf | ⟨nb, hca, _, _⟩
-          · exfalso
-            have : (execIssue c s e amt).2 = .ok := by simpa using hok
-            exact not_ok_of_failed hf this
-          · exact hca
-        exact hDF _ a e amt hca h1
+    · split
+      · exact hPQ _ hs
+      · have h1 : P (execIssue c s e amt).1.sub := by rw [sub_execIssue]; exact hs
+        split
+        · exact hPQ _ h1
+        · exact hDF _ a e amt h1
   | execIssue e amt => simp only [step]; rw [sub_execIssue]; exact hPQ _ hs
   | execDeposit a e amt => exact hED s a e amt hs
   | execWithdraw e a amt => exact hEW s e a amt hs
@@ -127,91 +121,75 @@ theorem subB_saveSub {B : Int} {s : State σ κ} (h : SubB B s.sub) (e : σ) {r 
     (hr : 0 ≤ r.bal ∧ r.bal ≤ B ∧ 0 ≤ r.frz ∧ r.frz ≤ B) : SubB B (saveSub c s e r).sub :=
   allv_aset h hr
 
-/-- One operation raises any sub-account field by less than `amountLimit`; while the bound stays
-below 2^63 nothing wraps. -/
-theorem subB_step {B : Int} (hB0 : 0 ≤ B) (hB1 : B + 100000000000000000 ≤ 9223372036854775807)
-    (s : State σ κ) (op : Op σ) (hs : SubB B s.sub) :
-    SubB (B + 100000000000000000) (step c s op).1.sub := by
-  have up : ∀ m : List ((σ × κ) × Acct σ), SubB B m → SubB (B + 100000000000000000) m :=
-    fun m h => subB_mono (by omega) h
-  refine step_sub c (SubB B) (SubB (B + 100000000000000000)) up ?_ ?_ ?_ ?_ ?_ ?_ ?_ s op hs
+/-- Every sub-account field stays within `[0, MaxTokenBalance]`: additions go through `safeAdd`,
+subtractions are guarded by the sufficiency checks. -/
+theorem subB_step (s : State σ κ) (op : Op σ) (hs : SubB 9000000000000000000 s.sub) :
+    SubB 9000000000000000000 (step c s op).1.sub := by
+  refine step_sub c (SubB 9000000000000000000) (SubB 9000000000000000000) (fun _ h => h)
+    ?_ ?_ ?_ ?_ ?_ ?_ ?_ s op hs
   · intro s a e amt h
-    rcases execDeposit_cases c s a e amt with hf | ⟨_, h1, he⟩
-    · rw [hf.1]; exact up _ h
-    · rw [he]; rw [checkAmount_iff] at h1
-      obtain ⟨a1, a2, a3, a4⟩ := subB_load c h hB0 a e
-      rw [wrap_id (by omega) (by omega)]
-      refine subB_saveSub c (up _ h) e ⟨?_, ?_, ?_, ?_⟩ <;> dsimp only <;> omega
+    rcases execDeposit_cases c s a e amt with hf | ⟨nb, _, h1, h4, he⟩
+    · rw [hf.1]; exact h
+    · rw [he]
+      obtain ⟨a1, a2, a3, a4⟩ := subB_load c h (by decide) a e
+      obtain ⟨n1, n2, n3⟩ := safeAdd_some h4 a1 a2
+      refine subB_saveSub c h e ⟨?_, ?_, ?_, ?_⟩ <;> dsimp only <;> omega
   · intro s e a amt h
     rcases execWithdraw_cases c s e a amt with hf | ⟨_, h1, h2, he⟩
-    · rw [hf.1]; exact up _ h
+    · rw [hf.1]; exact h
     · rw [he]; rw [checkAmount_iff] at h1
-      obtain ⟨a1, a2, a3, a4⟩ := subB_load c h hB0 a e
+      obtain ⟨a1, a2, a3, a4⟩ := subB_load c h (by decide) a e
       rw [wrap_id (by omega) (by omega)] at h2 ⊢
-      refine subB_saveSub c (up _ h) e ⟨?_, ?_, ?_, ?_⟩ <;> dsimp only <;> omega
+      refine subB_saveSub c h e ⟨?_, ?_, ?_, ?_⟩ <;> dsimp only <;> omega
   · intro s a e amt h
-    rcases execFrozen_cases c s a e amt with hf | ⟨_, h1, h2, he⟩
-    · rw [hf.1]; exact up _ h
+    rcases execFrozen_cases c s a e amt with hf | ⟨nf, _, h1, h2, h4, he⟩
+    · rw [hf.1]; exact h
     · rw [he]; rw [checkAmount_iff] at h1
-      obtain ⟨a1, a2, a3, a4⟩ := subB_load c h hB0 a e
+      obtain ⟨a1, a2, a3, a4⟩ := subB_load c h (by decide) a e
+      obtain ⟨n1, n2, n3⟩ := safeAdd_some h4 a3 a4
       rw [wrap_id (x := (loadSub c s a e).bal - amt) (by omega) (by omega)] at h2 ⊢
-      rw [wrap_id (x := (loadSub c s a e).frz + amt) (by omega) (by omega)]
-      refine subB_saveSub c (up _ h) e ⟨?_, ?_, ?_, ?_⟩ <;> dsimp only <;> omega
+      refine subB_saveSub c h e ⟨?_, ?_, ?_, ?_⟩ <;> dsimp only <;> omega
   · intro s a e amt h
-    rcases execActive_cases c s a e amt with hf | ⟨_, h1, h2, he⟩
-    · rw [hf.1]; exact up _ h
+    rcases execActive_cases c s a e amt with hf | ⟨nb, _, h1, h2, h4, he⟩
+    · rw [hf.1]; exact h
     · rw [he]; rw [checkAmount_iff] at h1
-      obtain ⟨a1, a2, a3, a4⟩ := subB_load c h hB0 a e
+      obtain ⟨a1, a2, a3, a4⟩ := subB_load c h (by decide) a e
+      obtain ⟨n1, n2, n3⟩ := safeAdd_some h4 a1 a2
       rw [wrap_id (x := (loadSub c s a e).frz - amt) (by omega) (by omega)] at h2 ⊢
-      rw [wrap_id (x := (loadSub c s a e).bal + amt) (by omega) (by omega)]
-      refine subB_saveSub c (up _ h) e ⟨?_, ?_, ?_, ?_⟩ <;> dsimp only <;> omega
+      refine subB_saveSub c h e ⟨?_, ?_, ?_, ?_⟩ <;> dsimp only <;> omega
   · intro s f t e amt h
-    rcases execTransfer_cases c s f t e amt with hf | ⟨_, _, h1, h2, he⟩
-    · rw [hf.1]; exact up _ h
+    rcases execTransfer_cases c s f t e amt with hf | ⟨nb, _, _, h1, h2, h4, he⟩
+    · rw [hf.1]; exact h
     · rw [he]; rw [checkAmount_iff] at h1
-      obtain ⟨a1, a2, a3, a4⟩ := subB_load c h hB0 f e
-      obtain ⟨b1, b2, b3, b4⟩ := subB_load c h hB0 t e
+      obtain ⟨a1, a2, a3, a4⟩ := subB_load c h (by decide) f e
+      obtain ⟨b1, b2, b3, b4⟩ := subB_load c h (by decide) t e
+      obtain ⟨n1, n2, n3⟩ := safeAdd_some h4 b1 b2
       rw [wrap_id (x := (loadSub c s f e).bal - amt) (by omega) (by omega)] at h2 ⊢
-      rw [wrap_id (x := (loadSub c s t e).bal + amt) (by omega) (by omega)]
-      refine subB_saveSub c (s := saveSub c s e _) (subB_saveSub c (up _ h) e ⟨?_, ?_, ?_, ?_⟩) e ⟨?_, ?_, ?_, ?_⟩ <;>
+      refine subB_saveSub c (s := saveSub c s e _) (subB_saveSub c h e ⟨?_, ?_, ?_, ?_⟩) e ⟨?_, ?_, ?_, ?_⟩ <;>
         dsimp only <;> omega
   · intro s f t e amt h
-    rcases execTransferFrozen_cases c s f t e amt with hf | ⟨_, _, h1, h2, he⟩
-    · rw [hf.1]; exact up _ h
+    rcases execTransferFrozen_cases c s f t e amt with hf | ⟨nb, _, _, h1, h2, h4, he⟩
+    · rw [hf.1]; exact h
     · rw [he]; rw [checkAmount_iff] at h1
-      obtain ⟨a1, a2, a3, a4⟩ := subB_load c h hB0 f e
-      obtain ⟨b1, b2, b3, b4⟩ := subB_load c h hB0 t e
+      obtain ⟨a1, a2, a3, a4⟩ := subB_load c h (by decide) f e
+      obtain ⟨b1, b2, b3, b4⟩ := subB_load c h (by decide) t e
+      obtain ⟨n1, n2, n3⟩ := safeAdd_some h4 b1 b2
       rw [wrap_id (x := (loadSub c s f e).frz - amt) (by omega) (by omega)] at h2 ⊢
-      rw [wrap_id (x := (loadSub c s t e).bal + amt) (by omega) (by omega)]
-      refine subB_saveSub c (s := saveSub c s e _) (subB_saveSub c (up _ h) e ⟨?_, ?_, ?_, ?_⟩) e ⟨?_, ?_, ?_, ?_⟩ <;>
+      refine subB_saveSub c (s := saveSub c s e _) (subB_saveSub c h e ⟨?_, ?_, ?_, ?_⟩) e ⟨?_, ?_, ?_, ?_⟩ <;>
         dsimp only <;> omega
-  · intro s a e amt h1 h
-    rw [checkAmount_iff] at h1
-    obtain ⟨a1, a2, a3, a4⟩ := subB_load c h hB0 a e
-    rw [wrap_id (by omega) (by omega)]
-    refine subB_saveSub c (up _ h) e ⟨?_, ?_, ?_, ?_⟩ <;> dsimp only <;> omega
+  · intro s a e amt h
+    rcases depositFrozen2_cases c s a e amt with hf | ⟨nf, h4, he⟩
+    · rw [hf.1]; exact h
+    · rw [he]
+      obtain ⟨a1, a2, a3, a4⟩ := subB_load c h (by decide) a e
+      obtain ⟨n1, n2, n3⟩ := safeAdd_some h4 a3 a4
+      refine subB_saveSub c h e ⟨?_, ?_, ?_, ?_⟩ <;> dsimp only <;> omega
 
-/-- after `n` operations from the empty store every sub-account field is within `[0, n·amountLimit]`
-(as long as that is below 2^63). -/
-theorem subB_run (ops : List (Op σ)) (B : Int) (s : State σ κ) (hB0 : 0 ≤ B)
-    (hB1 : B + 100000000000000000 * ops.length ≤ 9223372036854775807) (hs : SubB B s.sub) :
-    SubB (B + 100000000000000000 * ops.length) (run c s ops).sub := by
-  induction ops generalizing B s with
-  | nil =>
-    have e : B + 100000000000000000 * (([] : List (Op σ)).length : Int) = B := by
-      rw [List.length_nil]; show B + 100000000000000000 * (0 : Int) = B; omega
-    rw [e]; exact hs
-  | cons op ops ih =>
-    have hl : ((op :: ops).length : Int) = (ops.length : Int) + 1 := by
-      rw [List.length_cons]; exact Int.natCast_succ _
-    rw [hl] at hB1 ⊢
-    show SubB _ (run c (step c s op).1 ops).sub
-    have h1 := subB_step c hB0 (by omega) s op hs
-    have := ih (B + 100000000000000000) (step c s op).1 (by omega) (by omega) h1
-    have e : B + 100000000000000000 + 100000000000000000 * (ops.length : Int)
-        = B + 100000000000000000 * ((ops.length : Int) + 1) := by omega
-    rw [e] at this
-    exact this
+theorem subB_run (ops : List (Op σ)) (s : State σ κ) (hs : SubB 9000000000000000000 s.sub) :
+    SubB 9000000000000000000 (run c s ops).sub := by
+  induction ops generalizing s with
+  | nil => exact hs
+  | cons op ops ih => exact ih _ (subB_step c s op hs)
 
 end
 end C15
